@@ -96,17 +96,12 @@ def project(script, i, o):
 
 
 def mask(o):
-    """reply frame modulo wall-clock fields: the HTTP Date value and, when one is present, the TCP / UDP checksum that
-    covers it (the two runs of a metamorphic pair may straddle a second boundary)"""
+    """reply frame reduced to what the properties determine (net.norm_frame), with the HTTP Date value masked: the two
+    runs of a metamorphic pair may straddle a second boundary (the checksum over the Date is compared as 'valid')"""
     if o.kind != "R":
         return (o.kind,)
-    r = o.reply
-    if runner.DATE_RE.search(r):
-        p = net.parse_frame(r)
-        if p is not None and p.l4 is not None and p.proto in (6, 17):
-            off = len(r) - len(p.l4) + (16 if p.proto == 6 else 6)
-            r = r[:off] + b"\0\0" + r[off + 2:]
-    return ("R", runner.DATE_RE.sub(b"\nDate: X\n", r))
+    n = net.norm_frame(o.reply)
+    return ("R",) + tuple(runner.DATE_RE.sub(b"\nDate: X\n", x) if isinstance(x, (bytes, bytearray)) else x for x in n)
 
 
 def own_bits(scripts):
